@@ -418,6 +418,34 @@ func targetedC04(r *rng, which int) (Journal, string) {
 			{Kind: 'T', Date: day(2), Desc: "out", Bookings: []Booking{{al, other, q, c}}},
 			{Kind: 'C', Date: day(2), Acc: al}, {Kind: 'O', Date: day(4), Acc: al},
 			{Kind: 'A', Date: day(4 + r.intn(2)), Bals: []Bal{{al, zeroLit(r), c}}}}, "reopen"
+	case 5, 6: // an accrual whose expense account or accrual account is closed inside, at the end of or after the
+		// accrual window: the instalments are bookings like any other and must hit open accounts - also the ones
+		// that round to zero (amount / periods < 0.1; seeded change C04c-skip-zero-instalments dropped those and
+		// accepted journals whose closed account still had instalments due; C04 had no accruals at all before)
+		accr := "Assets:Accrued"
+		iv := pick(r, []string{"monthly", "weekly", "quarterly", "daily"})
+		s0 := r.intn(20)
+		span := r.rangeInt(40, 400)
+		if iv == "daily" {
+			span = r.rangeInt(2, 25)
+		}
+		amount := pick(r, []string{"0.05", "0.3", "1", "0.9", "12", q, q})
+		closeDay := s0 + r.rangeInt(-3, span+40)
+		if r.chance(30) {
+			closeDay = s0 + span + r.rangeInt(0, 3) // at or just after the window end
+		}
+		closed := other
+		if r.chance(35) {
+			closed = accr
+		}
+		j := Journal{{Kind: 'O', Date: day(0), Acc: al}, {Kind: 'O', Date: day(0), Acc: other}, {Kind: 'O', Date: day(0), Acc: accr},
+			{Kind: 'T', Date: day(r.intn(s0 + 1)), Desc: "premium", Bookings: []Booking{{al, other, amount, c}},
+				Accrual: &Accrual{iv, day(s0), day(s0 + span), accr}},
+			{Kind: 'C', Date: day(closeDay), Acc: closed}}
+		if other == accr || al == accr {
+			return j[:3], "accrual"
+		}
+		return j, "accrual"
 	default: // assertion on a non-A/L account stating its true (negated) turnover
 		neg := ratStr(new(big.Rat).Neg(rat(q)), 12)
 		return Journal{{Kind: 'O', Date: day(0), Acc: al}, {Kind: 'O', Date: day(0), Acc: other},
@@ -446,9 +474,9 @@ func genC04(out *caseWriter, seed uint64, n int, args []string) error {
 		var j Journal
 		cls, mut, feats := "lifecycle", "-", "-"
 		switch {
-		case i%10 == 9: // targeted minimal constructions
+		case i%10 == 9 || i%10 == 4: // targeted minimal constructions
 			var f string
-			j, f = targetedC04(r, r.intn(5))
+			j, f = targetedC04(r, r.intn(7))
 			cls, feats = "targeted", f
 		case i%10 == 8: // a larger journal from the shared generator, half of them mutated
 			o := defaultOpts(r)
